@@ -28,15 +28,21 @@ META = dict(
                "count of taken actions, the reading under which the code's own accounting is exact. 'signals every live worker ... and no process other than its own current "
                "workers': a Kill is accepted iff its pid belongs to a current worker whose fake process is live or a "
                "not-yet-reaped zombie at that moment (the reading that demands less; a reaped pid is not the manager's "
-               "any more), every worker live at return must have been signalled exactly once. Trusted: as C17.",
-    rule="as C17; at least 30 % of the random histories reach an exit (None or -1) and at least 30 % carry mid-tick events. "
+               "any more), every worker live at return must have been signalled exactly once. 'on SIGINT/SIGTERM ...' names no deadline: "
+               "a signal that reached the manager's handler counts as not honoured only if the manager completed two further whole "
+               "ticks and is still running (the code needs at most one). Trusted: as C17.",
+    rule="as C17 (including the varied configuration: reload / observer / reload extra / from_cli); at least 30 % of the random histories reach an exit (None or -1) and at least 30 % carry mid-tick events. "
          "Thorough: exhaustive single mid-tick injections into all reduced-alphabet histories (workers 1,2: depth 3; 3: depth 2; "
-         "max_fails in {-1,0,1,2,3}), sleep-event histories (depth 3,3,2) and 50000 random long histories.",
+         "max_fails in {-1,0,1,2,3}), sleep-event histories (depth 3,3,2), startup exits / signals inside prepare_workers under three "
+         "configurations (workers 1: depth 2, 2: depth 1) and 50000 random long histories.",
     trusted_base=["model: coq/theories/ProcMan.v (hand-written transcription of taskiq/cli/worker/process_manager.py)",
                   "process / queue / os.kill / signal / sleep fakes in harness/drivers/pm_driver.py (multiprocessing.Process "
                   "life cycle new/live/zombie/reaped, POSIX kill on a reaped pid, synchronous FIFO queue with multiprocessing.Queue's "
                   "maxsize semantics, current_process/parent_process/active_children; any other multiprocessing name held by "
-                  "the module is a stub that fails closed)"],
+                  "the module is a stub that fails closed)",
+                  "stand-ins for the third-party packages watchdog (event classes) and gitignore-parser (parse_gitignore), which are "
+                  "not installed here, so that the real taskiq.cli.watcher.FileWatcher can be scheduled and dispatched to; a "
+                  "recording stand-in for watchdog's Observer"],
     assumptions=["join() returns (the worker dies on SIGTERM)",
                  "queue.put() is visible to the next empty()/get() (no feeder-thread latency)",
                  "asynchronous events (signals, watchdog callback, worker deaths) happen at the fakes' delivery points: "
